@@ -15,16 +15,36 @@
     sv <targets> | <leaves> | <vec> SetVector                                      → `panic` | the leaves of the result
     tp <targets> | <leaves>         TunedParams                                    → `k:field:i.j` …
   <targets> is a comma separated list of names (`-` = empty list).
+
+  Float side of C19 (a) (Model/F64.lean, Model/EvalF.lean); bit patterns are hexadecimal `math.Float64bits`:
+    sigm <lo> <bits>*               Go's float sigmoid for the integers lo, lo+1, …: stored as the model's `σF`
+                                    → `ok <near> <far> <bad>`: how many are within 1/2 of the integer table
+                                    (exact rational comparison: `TableNear`), how many are not, how many are
+                                    not finite non-negative-signed doubles
+    expv <lo> <arg>:<exp>*          Go's `-0.2*(float64(n)-50.0)` and `math.Exp` of it for n = lo, lo+1, …
+                                    → `ok <agree> <inf> | <first disagreeing n or ->`: the model's `expArg n` has
+                                    the bits <arg>, and `sigmoidWith` (math.Exp := the given value) has the bits
+                                    stored for n by `sigm`; <inf> counts exp = +Inf, where the stored sigmoid
+                                    must be +0
+    f <dump>                        → `<bits of evalF> <bits of tunerEvalF> <ok> <valid>` with the current coefficient
+                                    set converted by `float64(·)` and the stored sigmoid; <valid> = `Board.valid`
+    fop <op> <bits> <bits>          op ∈ add sub mul div → `<bits> <ok>` (unit test of the arithmetic model)
+    fint <n>                        → bits of `float64(n)`
 -/
 import ChessVerif.Model.Eval
 import ChessVerif.Model.TunerVector
 import ChessVerif.Model.Abs
+import ChessVerif.Model.EvalF
 
 open ChessVerif ChessVerif.Eval
 
 structure DS where
   cs : CoeffSet Int := shipped
   csQ : CoeffSet Rat := shippedQ
+  /-- the coefficient set as `float64(·)` of every leaf (what EngineCoeffs / the harness hands to Eval[float64]). -/
+  csF : CoeffSet IEEE.F64 := shippedF
+  /-- Go's float sigmoid on the int16 arguments (index n + 32768), as handed over by `sigm`. -/
+  sig : Array IEEE.F64 := Array.replicate 65536 ⟨0, false, false⟩
 
 def hexVal (c : Char) : Nat :=
   if '0' ≤ c ∧ c ≤ '9' then c.toNat - 48
@@ -90,14 +110,84 @@ def ratStr (q : Rat) : String := s!"{q.num}/{q.den}"
 /-- the table sigmoid extended to rationals (only integer arguments occur with integer coefficients). -/
 def sigmaTable (x : Rat) : Rat := (sigmTable x.floor : Rat)
 
+/-! ### float side -/
+
+def hexN (n : Nat) : String := String.ofList (Nat.toDigits 16 n)
+
+/-- the stored sigmoid as a function of the real argument (integers of the int16 range; 0 elsewhere). -/
+def sigOf (tbl : Array IEEE.F64) (q : Rat) : Rat :=
+  if q.den = 1 ∧ -32768 ≤ q.num ∧ q.num ≤ 32767 then (tbl.getD (q.num + 32768).toNat default).val else 0
+
+/-- `TableNear` at `n` for the double `x`, in exact rationals. -/
+def nearTable (n : Int) (x : IEEE.F64) : Bool :=
+  let d := x.val - (sigmTable n : Rat)
+  decide (-(1 / 2 : Rat) ≤ d) && decide (d ≤ 1 / 2)
+
+def stepF (st : DS) (ws : List String) : Option (DS × String) :=
+  match ws with
+  | "sigm" :: lo :: rest =>
+    let lo := parseInt lo
+    let (st', _, near, far, bad) := rest.foldl (fun (acc : DS × Int × Nat × Nat × Nat) w =>
+      let (st, n, near, far, bad) := acc
+      let x := IEEE.F64.ofBits (parseHex w)
+      let st := if -32768 ≤ n ∧ n ≤ 32767 then { st with sig := st.sig.set! (n + 32768).toNat x } else st
+      if !x.ok || x.sign then (st, n + 1, near, far, bad + 1)
+      else if nearTable n x then (st, n + 1, near + 1, far, bad) else (st, n + 1, near, far + 1, bad))
+      (st, lo, 0, 0, 0)
+    some (st', s!"ok {near} {far} {bad}")
+  | "expv" :: lo :: rest =>
+    let lo := parseInt lo
+    let (_, agree, inf, firstBad) := rest.foldl (fun (acc : Int × Nat × Nat × Option Int) w =>
+      let (n, agree, inf, firstBad) := acc
+      let stored := st.sig.getD (n + 32768).toNat default
+      match w.splitOn ":" with
+      | [a, e] =>
+        let argOK := IEEE.F64.toBits (expArg n) == parseHex a && (expArg n).ok
+        let ebits := parseHex e
+        if ebits == 0x7ff0000000000000 then
+          -- math.Exp overflowed to +Inf: 1 + Inf = Inf, 600 / Inf = +0
+          if argOK && stored.ok && IEEE.F64.toBits stored == 0 then (n + 1, agree + 1, inf + 1, firstBad)
+          else (n + 1, agree, inf + 1, firstBad.orElse fun _ => some n)
+        else
+          let ex := IEEE.F64.ofBits ebits
+          let s := sigmoidWith (fun _ => ex) (IEEE.F64.ofInt n)
+          if argOK && ex.ok && s.ok && stored.ok && IEEE.F64.toBits s == IEEE.F64.toBits stored then (n + 1, agree + 1, inf, firstBad)
+          else (n + 1, agree, inf, firstBad.orElse fun _ => some n)
+      | _ => (n + 1, agree, inf, firstBad.orElse fun _ => some n))
+      (lo, 0, 0, none)
+    some (st, s!"ok {agree} {inf} | " ++ (match firstBad with | some n => toString n | none => "-"))
+  | "f" :: rest =>
+    match parseDump rest with
+    | none => some (st, "err")
+    | some b =>
+      let σ := sigOf st.sig
+      let e := evalF σ st.csF b
+      let t := tunerEvalF σ st.csF b
+      some (st, s!"{hexN (IEEE.F64.toBits e)} {hexN (IEEE.F64.toBits t)} {bstr (e.ok && t.ok)} {bstr b.valid}")
+  | ["fop", op, a, b] =>
+    let x := IEEE.F64.ofBits (parseHex a)
+    let y := IEEE.F64.ofBits (parseHex b)
+    let r := match op with
+      | "add" => IEEE.F64.add x y
+      | "sub" => IEEE.F64.sub x y
+      | "mul" => IEEE.F64.mul x y
+      | _ => IEEE.F64.div x y
+    some (st, s!"{hexN (IEEE.F64.toBits r)} {bstr r.ok}")
+  | ["fint", n] => some (st, hexN (IEEE.F64.toBits (IEEE.F64.ofInt (parseInt n))))
+  | _ => none
+
 def step (st : DS) (line : String) : DS × String :=
+  match stepF st (line.splitOn " ") with
+  | some r => r
+  | none =>
   match line.splitOn " " with
-  | ["cs", "shipped"] => ({ cs := shipped, csQ := shippedQ }, "ok shipped")
+  | ["cs", "shipped"] => ({ st with cs := shipped, csQ := shippedQ, csF := shippedF }, "ok shipped")
   | "cs" :: rest =>
     let flat := parseInts rest
     if flat.length != shapeSize Gen.Eval.shape then (st, s!"err {flat.length}") else
     let fs := splitFields Gen.Eval.shape flat
-    ({ cs := CoeffSet.ofFlat id (lookupField fs), csQ := CoeffSet.ofFlat (fun n => (n : Rat)) (lookupField fs) },
+    ({ st with cs := CoeffSet.ofFlat id (lookupField fs), csQ := CoeffSet.ofFlat (fun n => (n : Rat)) (lookupField fs),
+               csF := CoeffSet.ofFlat IEEE.F64.ofInt (lookupField fs) },
      s!"ok {flat.length}")
   | "e" :: rest =>
     match parseDump rest with
